@@ -28,6 +28,7 @@ extern MPT_STRUCT(linepart) *mpt_linepart_join(MPT_STRUCT(linepart) *to, MPT_STR
 	
 	to->raw += post.raw;
 	to->usr += post.usr;
+	to->_trim = post._trim;
 	
 	return to;
 }
